@@ -143,6 +143,28 @@ class Ctx:
             self.fail(rule, key + "|rule-crashed", "rule crashed (%s: %s) %s" % (type(e).__name__, e, " / ".join(tb)))
 
 
+def positive_controls(ctx, mod, prop, tier):
+    """Rules whose expected count on the real tree is zero must still fire on the fixture crate
+    (engine/fixtures/poscontrol, extracted at setup): a matcher that silently stopped matching would
+    otherwise pass vacuously for ever."""
+    controls = getattr(mod, "POSITIVE_CONTROLS", [])
+    if not controls:
+        return
+    fx = os.path.join(VERIF, "engine", "gen", "fixture_facts.json")
+    if not os.path.exists(fx):
+        ctx.fail("R00.control", "fixture-facts-missing", "engine/gen/fixture_facts.json missing: run MANIFEST.setup_cmd")
+        return
+    ffacts = Facts(fx)
+    for rule, fname in controls:
+        fctx = Ctx(ffacts, prop, tier)
+        try:
+            getattr(mod, fname)(fctx)
+        except Exception as e:  # the fixture lacks most anchors; only the matcher's hits count
+            pass
+        hits = [o for o in fctx.obs if o.rule == rule and not o.ok]
+        ctx.ob("R00.control", "positive-control|%s" % rule, bool(hits), "the matcher of %s fires on the fixture crate (%d hit(s): %s)" % (rule, len(hits), "; ".join(h.key for h in hits[:3])))
+
+
 def known_findings():
     p = os.path.join(VERIF, "known_findings.json")
     if not os.path.exists(p):
@@ -166,6 +188,7 @@ def run_property(prop, tier="quick", facts_path=None, write_evidence=True, repo=
             ctx.fail("R00.extraction", "floor", pr)
         missing = [a for a in ANCHOR_FNS if not facts.has_fn(a)]
         mod.run(ctx)
+        positive_controls(ctx, mod, prop, tier)
         extra_release = None
         extra = {}
         if tier == "thorough" and repo == REPO:
